@@ -23,9 +23,22 @@ META = {
 }
 
 
+PURITY = {'rng': None, 'n': 0, 'notes': []}
+
+
 def conv_events(d, fn, b, text):
     t = typ(b)
-    if text:
+    o = None
+    if text and PURITY['rng'].random() < 0.3:
+        # operand in a numeric variable, function applied twice (see Drv.on_variable)
+        o, note = d.on_variable(fn.upper() + '(%s)', b)
+        if o is not None:
+            PURITY['n'] += 1
+            if note:
+                PURITY['notes'].append((fn, b, note))
+    if o is not None:
+        pass
+    elif text:
         o = d.evalv('%s(%s)' % (fn.upper(), d.operand_text('A', b)))
     else:
         o = d.call(getattr(d.bv, fn + '_'), [d.val(b)])
@@ -40,6 +53,7 @@ def run(ctx):
                        '(fn, operand bytes, route) tuples; non-trivial = all (every tuple exercises a defining equation)')
     quick = ctx.quick()
     rng = ctx.rng
+    PURITY.update(rng=rng, n=0, notes=[])
     # development knob only (smoke-testing the thorough code paths quickly); evidence records it when used
     scale = float(os.environ.get('VF_MBF_SCALE', '1'))
     if scale != 1:
@@ -208,12 +222,24 @@ def run(ctx):
         else:
             b = rand_float(rng, 'd')
         text = rng.random() < ptext
-        o = d.evalv('CSNG(%s)' % d.operand_text('A', b)) if text else d.call(bv.csng_, [d.val(b)])
+        o = None
+        if text and rng.random() < 0.4:
+            o, note = d.on_variable('CSNG(%s)', b)
+            if o is not None:
+                PURITY['n'] += 1
+                if note:
+                    PURITY['notes'].append(('csng', b, note))
+        if o is None:
+            o = d.evalv('CSNG(%s)' % d.operand_text('A', b)) if text else d.call(bv.csng_, [d.val(b)])
         events.append({'fn': 'd2s', 't': 'd', 'x': b, 'k': o['k'], 'rt': o['t'], 'r': o['b'], 'c': o['c'],
                        'via': 'text' if text else 'direct'})
     d.close()
     ctx.cov['impl_wall_s'] = round(time.time() - t0, 1)
     pipe.finish()
+    ctx.cov['conversions_applied_twice_to_a_variable'] = PURITY['n']
+    for (fn, b, note) in PURITY['notes'][:50]:
+        ctx.reject('C03 conversion_depends_on_or_changes_its_operand_variable: %s of %s: %s' % (fn, b, note),
+                   key={'clause': 'conversion_not_a_function_of_the_value', 'fn': fn}, data={'fn': fn, 'x': b, 'note': note})
     ctx.cov['calls_direct'] = d.ndirect
     ctx.cov['calls_via_basic_text'] = d.ntext
     ctx.cov['events_by_fn'] = pipe.by
